@@ -1426,12 +1426,13 @@ class Engine:
             return
         if isinstance(tg, ast.Attribute):
             b = self._eval(tg.value, s, fi, depth, ch)
+            b, an = self._canon_attr(b, tg.attr)
             e = self._event("store", tg, fi, depth, s)
-            e.target = ("attr", b, tg.attr)
+            e.target = ("attr", b, an)
             e.value = v
-            e.attrname = tg.attr
-            s.heap[(b, tg.attr)] = v
-            self._forget(s, tg.attr)
+            e.attrname = an
+            s.heap[(b, an)] = v
+            self._forget(s, an)
             return
         if isinstance(tg, ast.Subscript):
             b = self._eval(tg.value, s, fi, depth, ch)
@@ -1920,10 +1921,31 @@ class Engine:
             return self._nt_unique[attr]
         return None
 
+    def _owner_class(self, tm) -> t.Optional[str]:
+        if tm[0] == "self":
+            return tm[1]
+        ty = self.typer.type_of(tm)
+        return ty[1] if ty and ty[0] == "cls" else None
+
+    def _canon_attr(self, base, attr):
+        """composition: `owner.h.y` where the owner's class has a property X that just returns self.h.y is the owner's own
+        attribute X (and X itself is read as a plain attribute, not as a call of its getter)"""
+        if base[0] == "attr":
+            oc = self._owner_class(base[1])
+            if oc is not None:
+                x = self.prog.forwarders(oc).get((base[2], attr))
+                if x is not None:
+                    return base[1], x
+        return base, attr
+
     def _load_attr(self, base, attr, node, s: _State, fi: FuncInfo, depth, ch):
+        base, attr = self._canon_attr(base, attr)
         # heap (flow sensitive attribute values on this path)
         if (base, attr) in s.heap:
             return s.heap[(base, attr)]
+        oc_ = self._owner_class(base) if base[0] in ("self", "attr", "param", "var") else None
+        if oc_ is not None and attr in self.prog.forwarders(oc_).values():
+            return ("attr", base, attr)  # a forwarding property: the attribute it presents
         nt = self._nt_field(base, attr)
         if nt is not None:
             cq, idx = nt
